@@ -10,6 +10,8 @@ pub uninterp spec fn kresolve(id: int) -> int;      // RESOLVE_* bits (openat2)
 pub uninterp spec fn is_cwd(id: int) -> bool;       // AT_FDCWD pseudo-descriptor
 pub uninterp spec fn raw_of(id: int) -> int;        // numeric descriptor value
 pub uninterp spec fn borrowed_from_c(id: int) -> bool; // lent by a C caller: must never be closed
+/// rigid (static-tree units only): no syscall fails for reasons outside the static model (EMFILE, ENOMEM, ...)
+pub uninterp spec fn static_no_faults() -> bool;
 /// the descriptor has FD_CLOEXEC (C05/C11: every descriptor the library creates must have it)
 pub uninterp spec fn cloexec(fd: int) -> bool;
 
@@ -28,7 +30,8 @@ impl<'a> BorrowedFd<'a> {
         ensures r matches Ok(fd) ==> same_description(fd.id(), self.id@) && lineage(fd.id()) == lineage(self.id@)
             && is_procfs(fd.id()) == is_procfs(self.id@) && mnt_checked(fd.id()) == mnt_checked(self.id@)
             && mnt_of(fd.id()) == mnt_of(self.id@) && ino_of(fd.id()) == ino_of(self.id@)
-            && cloexec(fd.id())
+            && cloexec(fd.id()),
+            static_no_faults() ==> r is Ok,
     { unimplemented!() }
 }
 pub uninterp spec fn same_description(a: int, b: int) -> bool;
